@@ -21,6 +21,7 @@ import (
 	"github.com/glebziz/fs_db"
 	"github.com/glebziz/fs_db/config"
 	"github.com/glebziz/fs_db/internal/di"
+	imodel "github.com/glebziz/fs_db/internal/model"
 	"github.com/glebziz/fs_db/pkg/inline"
 	"github.com/glebziz/fs_db/verifh/model"
 	"github.com/glebziz/fs_db/verifrt/badger"
@@ -87,6 +88,22 @@ type Inst struct {
 	DBPath  string
 	DB      fs_db.DB
 	CloseFn func() error // replaces DB.Close (gRPC tier: also stops the server)
+	// RawTx ends (commit=true: Commit, else Rollback) the transaction named txId without a handle from
+	// Begin; named=false: no transaction is named at all. gRPC tier: a raw protocol call; inline: the
+	// transaction use case of the instance's container (what the server's handler calls).
+	RawTx func(commit bool, txId string, named bool) error
+}
+
+func container(db fs_db.DB) (*di.Container, error) {
+	v := reflect.ValueOf(db)
+	if v.Kind() == reflect.Ptr {
+		v = v.Elem()
+	}
+	f := v.FieldByName("container")
+	if !f.IsValid() || f.Kind() != reflect.Ptr {
+		return nil, fmt.Errorf("no container in %T", db)
+	}
+	return (*di.Container)(unsafe.Pointer(f.Pointer())), nil
 }
 
 func (s Spec) dir() string {
@@ -134,6 +151,20 @@ func Open(spec Spec) (*Inst, error) {
 		return nil, err
 	}
 	in.DB = db
+	in.RawTx = func(commit bool, txId string, named bool) error {
+		c, err := container(db)
+		if err != nil {
+			return err
+		}
+		ctx := context.Background()
+		if named {
+			ctx = imodel.StoreTxId(ctx, txId)
+		}
+		if commit {
+			return c.Transaction().Commit(ctx)
+		}
+		return c.Transaction().Rollback(ctx)
+	}
 	return in, nil
 }
 
